@@ -1044,7 +1044,17 @@ where
         }
 
         // At this point we know that k is small enough (k <= threshold) thus we can
-        // proceed by multiplying the constant by every limb.
+        // proceed by multiplying the constant by every limb, provided the limbs of x
+        // leave room for it; otherwise we normalize x first.
+        let max_limb_bound = P::max_limb_bound();
+        let k_bi: BI = k.to_biguint().into();
+        let x = if x.limb_bounds.iter().any(|(lower, upper)| {
+            lower * &k_bi < -&max_limb_bound || upper * &k_bi + &k_bi > max_limb_bound
+        }) {
+            self.normalize(layouter, x)?
+        } else {
+            x.clone()
+        };
 
         // Note that x := 1 + sum_i base^i xi.
         // Thus z = k * x is equal to k + sum_i base^i (k * xi).
